@@ -18,7 +18,7 @@ GridQueries == {Q(FALSE, <<>>), Q(TRUE, <<>>), Q(TRUE, <<KVr("x", "1")>>), Q(TRU
                 Q(TRUE, <<KVr("x", "1"), KVr("x", "2")>>), Q(TRUE, <<KVr("x", "2"), KVr("x", "1")>>), Q(TRUE, <<KVr("y", "2")>>)}
 Grid == IF Full
         THEN [sch : SchemeP, host : HostP, path : GridPathsFull, query : GridQueries, frag : FragP]
-        ELSE [sch : {"http", "https", "HTTP"}, host : {"example.com", "EXAMPLE.COM", "www.example.com", "example.com:8080", "example.com:443"},
+        ELSE [sch : {"http", "https", "HTTP"}, host : {"example.com", "EXAMPLE.COM", "www.example.com", "example.com:8080", "[::1]:8080", "[::2]:8080"},
               path : GridPathsQuick, query : GridQueries, frag : {"", "f"}]
 
 \* strings that are not absolute URLs: only reflexivity and symmetry are demanded
